@@ -2162,6 +2162,31 @@ func ruleTOCConfigFlow(r *Run) {
 						remembered = append(remembered, f)
 					}
 				}
+				// the level read out of a configuration object that a module helper built
+				// (config := d.tocUpdateConfig(); config.MaxLevel): what the helper stores into that field
+				if ld, ok := lvl.(*ssa.UnOp); ok && ld.Op == token.MUL {
+					if fa, ok := ld.X.(*ssa.FieldAddr); ok {
+						lfv, base := fieldOfAddr(fa)
+						if bc, ok := stripLoads(base).(*ssa.Call); ok && lfv != nil {
+							if g := staticCallee(bc); g != nil && p.inModule(g) {
+								allInstrs(g, func(in2 ssa.Instruction) {
+									st2, ok := in2.(*ssa.Store)
+									if !ok {
+										return
+									}
+									if f2, _ := fieldOfAddr(st2.Addr); f2 != lfv {
+										return
+									}
+									for f := range sl.Slice(st2.Val).fieldsReadOf(p, map[string]bool{"Document": true}) {
+										if f != "Document.Body" {
+											remembered = append(remembered, f)
+										}
+									}
+								})
+							}
+						}
+					}
+				}
 				sort.Strings(remembered)
 				r.Check("toc-config-flow", shortName(topLevel(fn))+":level-source", c.Pos(), len(remembered) == 0,
 					fmt.Sprintf("%s collects headings with a level that is not an argument: %s", shortName(topLevel(fn)),
